@@ -18,7 +18,7 @@ Msg_small == {<<"None", 0>>, <<"End", 1>>, <<"Disc", 1>>, <<"Repl", 1>>}
 Ext_none == {}
 Ext_core == {<<"End", 1>>, <<"Disc", 1>>, <<"Reco", 1>>, <<"Repl", 1>>, <<"ReplF", 1>>, <<"Quit", 0>>, <<"Add", 0>>, <<"AddF", 0>>, <<"Ard1", 1>>, <<"Ard0", 1>>}
 Ext_two  == Ext_core \cup {<<"End", 2>>, <<"Disc", 2>>, <<"Reco", 2>>, <<"Repl", 2>>}
-Ext_conn == {<<"End", 1>>, <<"Disc", 1>>, <<"Reco", 1>>, <<"Ard0", 1>>}
+Ext_conn == {<<"End", 1>>, <<"Disc", 1>>, <<"Reco", 1>>}
 Ext_small == {<<"End", 1>>, <<"Disc", 1>>, <<"Reco", 1>>, <<"Quit", 0>>}
 
 A(s, cb, act, t) == [s |-> s, cb |-> cb, act |-> act, t |-> t]
@@ -31,7 +31,7 @@ Arm_conn == {A(1, "ACC", "End", 1), A(1, "ACC", "Disc", 1), A(1, "ACC", "Reco", 
              A(1, "Att", "Disc", 1), A(1, "Att", "End", 1), A(1, "Det", "Add", 0), A(1, "CCC", "Repl", 1)}
 Arm_core2 == {A(1, "Att", "End", 1), A(1, "Att", "Disc", 1), A(2, "Att", "Disc", 1), A(1, "Det", "Add", 0), A(1, "Det", "End", 2),
               A(1, "CCC", "Reco", 1), A(1, "CCC", "Repl", 1), A(1, "Pulse", "Disc", 1), A(1, "Pulse", "Repl", 1)}
-Arm_conn2 == {A(1, "ACC", "Disc", 1), A(1, "ACC", "Reco", 1), A(1, "CCC", "Reco", 1), A(1, "CCC", "Repl", 1), A(1, "Pulse", "Disc", 1), A(1, "Att", "Disc", 1)}
+Arm_conn2 == {A(1, "ACC", "Disc", 1), A(1, "ACC", "Reco", 1), A(1, "CCC", "Reco", 1), A(1, "CCC", "Repl", 1), A(1, "Pulse", "Disc", 1)}
 Arm_small == {A(1, "Att", "End", 1), A(1, "Det", "Add", 0), A(1, "CCC", "Reco", 1)}
 
 Ops_all  == {"AddSock", "AddBare", "AddConn", "AddDorm", "Ext", "Send", "Close", "Fac", "Arm", "Clock", "Wp", "Pump", "Cleanup"}
